@@ -53,6 +53,8 @@ type ConcWriters struct {
 	lastP   int
 	lastM   int
 	pending []explore.Violation
+	pre     int    // > 0: entries of a second remote writer merged (and reported replicated) before the threads start
+	remote2 *sim.Instance
 	merge   int    // > 0: one more thread merges this many entries of a remote writer while the writers write
 	remote  *sim.Instance
 	locks   bool   // also park writers before every Lock/RLock of the store and index code (vsync shim)
@@ -129,8 +131,15 @@ func NewConcWritersMerge(kind string, n, per int, locks bool, merge int) (*ConcW
 // NewConcWritersStatus: with status, the locks of the replication-status code are schedule points as well and
 // (progress, max) is sampled after every step (C19).
 func NewConcWritersStatus(kind string, n, per int, locks bool, merge int, status bool) (*ConcWriters, error) {
+	return NewConcWritersPre(kind, n, per, locks, merge, status, 0)
+}
+
+// NewConcWritersPre: with pre > 0 a second remote writer's chain of that many entries is merged before the
+// threads start (acknowledged as replicated), and the merging thread waits at a harness point "merge.begin"
+// so that the explorer decides when the concurrent merge starts.
+func NewConcWritersPre(kind string, n, per int, locks bool, merge int, status bool, pre int) (*ConcWriters, error) {
 	sim.TagGoroutine("driver") // the explorer's own reads of the store never park
-	w := &ConcWriters{status: status, merge: merge, locks: locks, kind: kind, net: sim.NewNet(), n: n, per: per, acked: map[string]string{}, errs: map[string]error{}}
+	w := &ConcWriters{pre: pre, status: status, merge: merge, locks: locks, kind: kind, net: sim.NewNet(), n: n, per: per, acked: map[string]string{}, errs: map[string]error{}}
 	w.peer = w.net.AddPeer("W")
 	inst, err := w.peer.Start(nil)
 	if err != nil {
@@ -142,8 +151,15 @@ func NewConcWritersStatus(kind string, n, per int, locks bool, merge int, status
 		if w.remote, err = w.net.AddPeer("R").Start(nil); err != nil {
 			return nil, err
 		}
+		ids := []string{inst.DB.Identity().ID, w.remote.DB.Identity().ID}
+		if pre > 0 {
+			if w.remote2, err = w.net.AddPeer("Q").Start(nil); err != nil {
+				return nil, err
+			}
+			ids = append(ids, w.remote2.DB.Identity().ID)
+		}
 		ac := accesscontroller.NewEmptyManifestParams()
-		ac.SetAccess("write", []string{inst.DB.Identity().ID, w.remote.DB.Identity().ID})
+		ac.SetAccess("write", ids)
 		copts.AccessController = ac
 	}
 	s, err := inst.DB.Create(bg, "db", w.storeType(), copts)
@@ -152,6 +168,39 @@ func NewConcWritersStatus(kind string, n, per int, locks bool, merge int, status
 	}
 	w.store, w.addr = s, s.Address().String()
 	w.k0, w.identity = len(w.peer.Effects()), inst.DB.Identity().ID
+	if pre > 0 && w.remote2 != nil {
+		qs, err := w.remote2.DB.Open(bg, w.addr, &orbitdb.CreateDBOptions{Replicate: boolp(false)})
+		if err != nil {
+			return nil, err
+		}
+		w.store = qs
+		for j := 0; j < pre; j++ {
+			payload := fmt.Sprintf("q.%d", j)
+			h, err := w.write(8, j, payload)
+			if err != nil {
+				w.store = s
+				return nil, err
+			}
+			w.acked[payload] = h
+		}
+		w.store = s
+		hs, err := WireCopy(w.addr, qs.OpLog().Heads().Slice())
+		if err != nil {
+			return nil, err
+		}
+		if err := s.Sync(bg, hs); err != nil {
+			return nil, err
+		}
+		if err := sim.Quiesce(); err != nil {
+			return nil, err
+		}
+		for _, e := range qs.OpLog().GetEntries().Slice() {
+			if _, ok := s.OpLog().Get(e.GetHash()); !ok {
+				return nil, fmt.Errorf("pre-merge incomplete")
+			}
+			w.peer.Ack("R:" + e.GetHash().String()) // reported as replicated: must survive any later crash
+		}
+	}
 	var remoteHeads []ipfslog.Entry
 	if merge > 0 {
 		rs, err := w.remote.DB.Open(bg, w.addr, &orbitdb.CreateDBOptions{Replicate: boolp(false)})
@@ -187,19 +236,28 @@ func NewConcWritersStatus(kind string, n, per int, locks bool, merge int, status
 		if (status || (locks && merge > 0)) && strings.HasPrefix(peer, "replemit.") {
 			return true // the replicator's emissions come from several goroutines: their order is the explorer's choice
 		}
-		if strings.HasPrefix(peer, "write.") || strings.HasPrefix(peer, "index.") {
+		if strings.HasPrefix(peer, "write.") || strings.HasPrefix(peer, "index.") || peer == "merge.begin" {
 			return true
 		}
 		// lock points: the write path of the store and the index implementations
-		return locks && (peer == "lock" || peer == "rlock") &&
-			(strings.Contains(caller, "Index") || strings.HasPrefix(caller, "basestore.(*BaseStore).AddOperation") || strings.HasPrefix(caller, "basestore.(*BaseStore).updateIndex") ||
-				strings.HasPrefix(caller, "basestore.(*BaseStore).replicationLoadComplete"))
+		// (every lock of the store and of the index implementations, including the accessors OpLog() and Index():
+		// a value fetched through an accessor may be stale by the next statement)
+		if status {
+			// the status unit keeps to the write path, the merge handler and the indices besides the status code
+			return locks && (peer == "lock" || peer == "rlock") &&
+				(strings.Contains(caller, "Index") || strings.HasPrefix(caller, "basestore.(*BaseStore).AddOperation") || strings.HasPrefix(caller, "basestore.(*BaseStore).updateIndex") ||
+					strings.HasPrefix(caller, "basestore.(*BaseStore).replicationLoadComplete"))
+		}
+		return locks && (peer == "lock" || peer == "rlock") && (strings.Contains(caller, "Index") || strings.HasPrefix(caller, "basestore."))
 	})
 	if merge > 0 {
 		w.n++ // the merging thread counts as a writer that must return
 		go func() {
 			sim.TagGoroutine("m0")
 			defer sim.UntagGoroutine()
+			if pre > 0 {
+				_, _ = w.net.Gates.Pass(bg, "point", "merge.begin", "m0")
+			}
 			err := w.store.Sync(bg, remoteHeads)
 			w.mu.Lock()
 			if err != nil {
@@ -442,10 +500,14 @@ func (w *ConcWriters) Close() {
 	if w.remote != nil {
 		_ = w.remote.Close()
 	}
+	if w.remote2 != nil {
+		_ = w.remote2.Close()
+	}
 	_ = sim.Quiesce()
 }
 
 type C17Arg struct {
+	Pre                          int
 	Merge                        int
 	Locks                        bool
 	Kind                         string
@@ -462,6 +524,9 @@ func (a C17Arg) Name() string {
 	}
 	if a.Merge > 0 {
 		k += fmt.Sprintf("+merge%d", a.Merge)
+	}
+	if a.Pre > 0 {
+		k += fmt.Sprintf("+premerged%d", a.Pre)
 	}
 	return fmt.Sprintf("concwriters/%s/n%d/per%d/dev%d/shard%d.%d", k, a.N, a.Per, a.Bound, a.Shard, a.Shards)
 }
@@ -500,7 +565,7 @@ func init() {
 			for _, k := range []string{"eventlog", "keyvalue-same", "docstore-same"} {
 				u = append(u, c17Units(C17Arg{Kind: k, N: 2, Per: 1, Bound: lb, Locks: true}, 8)...)
 				// one writer against a replication merge of a remote writer's two entries
-				u = append(u, c17Units(C17Arg{Kind: k, N: 1, Per: 1, Bound: lb, Locks: true, Merge: 2}, 8)...)
+				u = append(u, c17Units(C17Arg{Kind: k, N: 1, Per: 1, Bound: lb - 1, Locks: true, Merge: 2}, 8)...)
 			}
 			if tier == "thorough" {
 				u = append(u, c17Units(C17Arg{N: 3, Per: 1, Bound: -1}, 48)...)
